@@ -358,6 +358,14 @@ def run_check(pid, tier, base_seed=None, n_runs=None, workers=None, budget_s=Non
                     sys.stderr.write('minimisation failed: %r\n' % (e,))
             if path is None:
                 path = write_replay(pid, r['seed'], cfg, events, v, r.get('digest'))
+                if events is not None:
+                    # a replay file that does not reproduce its violation is a defect of the harness: say so
+                    try:
+                        rr = mod.run(r['seed'], 'replay', cfg=cfg, events=events)
+                        if not any(x['inv'] == v['inv'] for x in rr.get('violations') or []):
+                            sys.stderr.write('HARNESS-WARNING: replay %s does not reproduce %s\n' % (path, v['inv']))
+                    except Exception as e:
+                        sys.stderr.write('HARNESS-WARNING: replay %s raised %r\n' % (path, e))
             violations.append(dict(seed=r['seed'], viol=v, replay=path))
     for kid, n in sorted(suppressed.items()):
         k = [x for x in known if x['id'] == kid][0]
